@@ -165,11 +165,10 @@ def leaf_summaries(tree, full_below=0):
 
 
 def ford(x):
-    """Monotone integer image of a float (via float32 bits), as a python int in int32 range,
-    halved to stay clear of TLC's 2^31 edge: order-preserving on float32 values up to ties of
-    adjacent floats (bounds in jumanji are far from that resolution)."""
+    """Monotone integer image of a float (via its float32 bits) as a python int within int32 range:
+    order-preserving and injective on float32 values (-0.0 and +0.0 both map to 0)."""
     f = np.float32(x)
     b = int(np.frombuffer(np.float32(f).tobytes(), dtype=np.int32)[0])
     if b < 0:
         b = -(b & 0x7FFFFFFF)
-    return b // 2
+    return b
